@@ -34,8 +34,8 @@ PROPS = {
 
 PROPS['C17'] = {
     'level': 'proof',
-    'verus': ['joypad'],
-    'technique': 'Verus function contracts over the complete transition relation (bit-vector lemmas for the line/edge arithmetic)',
+    'verus': ['joypad'], 'kani': ['misc:joypad'],
+    'technique': 'Verus function contracts over the complete transition relation (bit-vector lemmas for the line/edge arithmetic) + a complete Kani twin (joypad_twin: every reachable state and every operation on the real Joypad, loop-free) that also supplies counterexamples',
     'level_text': 'Every function of devices/joypad.rs is extracted from /repo on each run and proved for all 256 button states x 4 selections x all actions: get_value & 0x3f == p1(buttons, selection); press/release/set_value update exactly the named bits; the request is latched iff prev_lines & !new_lines & 0x0f != 0; get_interrupt reports it once and clears it.',
     'level_note': 'Trusts Verus/Z3, the extraction rules, the joypad spec functions and an assume_specification for std::mem::replace.',
     'design_ref': 'DESIGN.md 5.17',
@@ -196,7 +196,9 @@ PROPS['C15'] = {
 }
 
 # functions whose Verus contract is also decided, completely, by a Kani harness family on the real function
-TWINS = {'Core::handle_interrupt': ('misc:irq', 'C07')}   # (Kani group, the property its checks are labelled with)
+TWINS = {'Core::handle_interrupt': ('misc:irq', 'C07'),
+         'Joypad::get_value': ('misc:joypad', 'C17'), 'Joypad::set_value': ('misc:joypad', 'C17'), 'Joypad::press_button': ('misc:joypad', 'C17'),
+         'Joypad::release_button': ('misc:joypad', 'C17'), 'Joypad::get_interrupt': ('misc:joypad', 'C17')}   # (Kani group, the property its checks are labelled with)
 
 HOOK_COMMITS = ['e7167ea', '094daf3', 'ddd33be', 'b06d137']
 NOT_APPLICABLE = {}
